@@ -106,3 +106,18 @@ claim("C20",
       "trip through concrete data formats is not decided.",
       "Trusted: analysis/sym.py, analysis/abs*.py, specs/justifications.txt; serde's own crates are outside the analysed program.",
       "DESIGN.md 5/C20")
+claim("C12",
+      "table extraction from MIR (specifier -> item, composites, pad modifiers, numeric writers) compared with chrono's documented table; interval abstract interpretation of the writers (narrowing casts, digit domains)",
+      "Decides: the complete specifier table of the strftime parser (every character sequence after '%', 46 single specifiers, 9 composites, 3 padding modifiers x all "
+      "specifiers) equals the documented table transcribed by hand, composite = expansion, modifiers only on single numeric items, unknown specifiers are errors; each numeric "
+      "item is written from the documented accessor with the documented width and the explicit-sign rule for years outside 0..=9999; no narrowing cast or single-digit write in "
+      "any writer can leave its domain for any value (so %C of year 12345 cannot print garbage). The rendered text per value (week formulas, names lookup, rounding) is not decided.",
+      "Trusted: specs/tables/strftime_spec.py (hand transcription of the documentation); analysis/sym.py; analysis/abs*.py; specs/justifications.txt.",
+      "DESIGN.md 5/C12, appendix A.7")
+claim("C13",
+      "sibling rule between the reader's and the writer's per-item tables extracted from MIR; exhaustiveness of explicit match arms; name-table comparison",
+      "NARROW claim. Decides that reader and writer agree item by item: for each of the 21 Numeric items the reader's max width covers the written width, a sign is read "
+      "where %Y/%G/%s can write one, and the Parsed field set is the one the written accessor denotes; every Fixed/internal item has an explicit arm on both sides; the scanners' "
+      "month/weekday tables equal the default-locale writer tables. The round trip for concrete values, white space and letter case are not decided.",
+      "Trusted: specs/tables/strftime_spec.py pairing table; analysis/sym.py.",
+      "DESIGN.md 5/C13, appendix A.1")
